@@ -46,7 +46,7 @@ def generate(r, tier):
     if r.random() < 0.35:
         sc["renames"], olds = kgen.rename_table(r, prog)
     sc["hand"] = [kgen.handwritten(r, prog, olds=olds, sane=r.random() < 0.7) for _ in range(r.randint(0, 2))]
-    sc["ops"] = ops.gen_history(r, prog, r.randint(0, 25), weights={"read": 6, "save": 8, "load": 8, "restart": 5}, hand_n=len(sc["hand"]),
+    sc["ops"] = ops.gen_history(r, prog, r.randint(0, 25), weights={"read": 6, "edge": 10, "save": 8, "load": 8, "restart": 5}, hand_n=len(sc["hand"]),
                                 sane=0.7)
     return sc
 
